@@ -79,6 +79,7 @@ type verifC23Fixture struct {
 	adb      *state.AccountsDB
 	txp      process.TransactionProcessor
 	fees     process.TransactionFeeHandler
+	econ     process.FeeHandler // the fee handler the processor itself asks: "the fee" of the statement (its formulas are C21's subject)
 	notifier *verifC23Notifier
 	receipts *mock.IntermediateTransactionHandlerMock
 	badTxs   *mock.IntermediateTransactionHandlerMock
@@ -233,7 +234,7 @@ func verifC23NewFixture(t verifC23Fataler, g verifC23Cfg) *verifC23Fixture {
 	if err != nil {
 		t.Fatalf("fixture: fee accumulator: %v", err)
 	}
-	f := &verifC23Fixture{cfg: g, adb: adb, fees: fees, notifier: notifier,
+	f := &verifC23Fixture{cfg: g, adb: adb, fees: fees, econ: econ, notifier: notifier,
 		receipts: &mock.IntermediateTransactionHandlerMock{},
 		badTxs:   &mock.IntermediateTransactionHandlerMock{},
 		scrs:     &mock.IntermediateTransactionHandlerMock{},
@@ -309,6 +310,29 @@ func (f *verifC23Fixture) create(t verifC23Fataler, addr []byte, bal *big.Int, n
 	if err = f.adb.SaveAccount(ua); err != nil {
 		t.Fatalf("fixture: SaveAccount: %v", err)
 	}
+}
+
+// setBalance puts an account on a chosen balance (fixture action: the account "has" that balance, as after genesis or
+// earlier incoming transfers); returns the change so that the conservation baseline can follow.
+func (f *verifC23Fixture) setBalance(t verifC23Fataler, addr []byte, target *big.Int) *big.Int {
+	a, err := f.adb.LoadAccount(addr)
+	if err != nil {
+		t.Fatalf("fixture: LoadAccount: %v", err)
+	}
+	ua := a.(state.UserAccountHandler)
+	d := big.NewInt(0).Sub(target, ua.GetBalance())
+	if d.Sign() >= 0 {
+		err = ua.AddToBalance(d)
+	} else {
+		err = ua.SubFromBalance(big.NewInt(0).Neg(d))
+	}
+	if err != nil {
+		t.Fatalf("fixture: set balance (%s): %v", d, err)
+	}
+	if err = f.adb.SaveAccount(ua); err != nil {
+		t.Fatalf("fixture: SaveAccount: %v", err)
+	}
+	return d
 }
 
 func verifC23Mul(a, b uint64) *big.Int {
@@ -479,6 +503,45 @@ func verifC23GenBalance(rt *rapid.T, g verifC23Cfg) *big.Int {
 	}
 }
 
+func verifC23BuildTx(addrs [][]byte, x verifC23Tx) *dataTx.Transaction {
+	tx := &dataTx.Transaction{
+		Nonce: x.nonce, Value: big.NewInt(0).Set(x.value), SndAddr: addrs[x.snd], RcvAddr: addrs[x.rcv],
+		GasPrice: x.gasPrice, GasLimit: x.gasLimit, Data: []byte(x.data), ChainID: []byte("1"), Version: 1,
+	}
+	if len(x.data) == 0 {
+		tx.Data = nil
+	}
+	return tx
+}
+
+// verifC23Fund puts the sender on a balance at (or inside) one of the decision boundaries of the drawn transaction:
+// move fee, the fee in force, gasLimit*gasPrice, each alone and plus the value, one below each, and the middle of the
+// two windows [move fee, gasLimit*gasPrice) and [fee, fee+value). Returns the balance change (nil: nothing done).
+func verifC23Fund(rt *rapid.T, f *verifC23Fixture, addrs [][]byte, x verifC23Tx) (*big.Int, *big.Int) {
+	g := f.cfg
+	move := verifC23Mul(g.moveGas(len(x.data)), x.gasPrice)
+	capFee := verifC23Mul(x.gasLimit, x.gasPrice)
+	fee := f.econ.ComputeTxFee(verifC23BuildTx(addrs, x))
+	add := func(a, b *big.Int) *big.Int { return big.NewInt(0).Add(a, b) }
+	one := big.NewInt(1)
+	minus1 := func(a *big.Int) *big.Int { return big.NewInt(0).Sub(a, one) }
+	mid := func(a, b *big.Int) *big.Int { return big.NewInt(0).Rsh(add(a, b), 1) }
+	targets := []*big.Int{
+		mid(fee, add(fee, x.value)), mid(move, capFee),
+		fee, minus1(add(fee, x.value)), add(fee, x.value), minus1(fee),
+		move, minus1(capFee), capFee, minus1(move),
+		minus1(add(capFee, x.value)), add(capFee, x.value), minus1(add(move, x.value)), add(move, x.value),
+	}
+	target := targets[rapid.IntRange(0, len(targets)-1).Draw(rt, "fundTarget")]
+	if target.Sign() < 0 {
+		target = big.NewInt(0)
+	}
+	if target.Cmp(g.supply) > 0 {
+		return nil, nil // nobody holds more than the supply
+	}
+	return f.setBalance(rt, addrs[x.snd], target), target
+}
+
 const (
 	verifC23Success = iota
 	verifC23Failed
@@ -491,13 +554,7 @@ func verifC23Step(rt verifC23Fataler, c verifC23Reporter, f *verifC23Fixture, ad
 	g := f.cfg
 	pre := f.readAll(rt, addrs)
 	fees0 := f.fees.GetAccumulatedFees()
-	tx := &dataTx.Transaction{
-		Nonce: x.nonce, Value: big.NewInt(0).Set(x.value), SndAddr: addrs[x.snd], RcvAddr: addrs[x.rcv],
-		GasPrice: x.gasPrice, GasLimit: x.gasLimit, Data: []byte(x.data), ChainID: []byte("1"), Version: 1,
-	}
-	if len(x.data) == 0 {
-		tx.Data = nil
-	}
+	tx := verifC23BuildTx(addrs, x)
 	// user-name extension (names != nil): the transaction may name the sender/receiver; a name that is not the account's
 	// is the deliberate "user name does not match" failure, which charges the fee like an insufficient-funds failure.
 	userMismatch := false
@@ -511,6 +568,9 @@ func verifC23Step(rt verifC23Fataler, c verifC23Reporter, f *verifC23Fixture, ad
 			userMismatch = userMismatch || x.rcvUser != names[x.rcv]
 		}
 	}
+	// the fee this transaction authorises under the flags in force, as the fee handler states it
+	var authFee *big.Int
+	c.NoPanic("C23:fee-panic", func() { authFee = f.econ.ComputeTxFee(tx) })
 	snapshot := f.adb.JournalLen()
 	var err error
 	c.NoPanic("C23:process-panic", func() { _, err = f.txp.ProcessTransaction(tx) })
@@ -584,6 +644,17 @@ func verifC23Step(rt verifC23Fataler, c verifC23Reporter, f *verifC23Fixture, ad
 		}
 		othersUnchanged("C23:failed-third-party")
 	default:
+		// The statement knows three outcomes: success, the insufficient-funds failure that charges the fee, and
+		// rejection "for another reason" without any change. A well-formed transaction (nonce = account nonce, gas price
+		// and gas limit inside their bounds, value <= supply, no user name mismatch) whose sender covers the fee has no
+		// other reason: it either succeeds or is the charged failure. (Whether it is the one or the other depends on the
+		// funds check and is judged only where every fee formula agrees, see failed-with-sufficient-funds.)
+		wellFormed := x.nonce == pre[x.snd].nonce && x.gasPrice >= g.minGasPrice &&
+			x.gasLimit >= g.moveGas(len(x.data)) && x.gasLimit < g.maxGasPerBlock && x.value.Cmp(g.supply) <= 0 && !userMismatch
+		feeSane := authFee != nil && authFee.Cmp(moveFee) >= 0 && authFee.Cmp(capFee) <= 0
+		if wellFormed && feeSane && pre[x.snd].bal.Cmp(authFee) >= 0 {
+			c.Violation("C23:rejected-although-fee-covered", "well-formed transaction refused without charge although the sender covers the fee %s (insufficient funds must charge the fee and use up the nonce); %s", authFee, ctx())
+		}
 		if F.Sign() != 0 {
 			c.Violation("C23:rejected-fee-collected", "fee collector changed on a rejected transaction; %s", ctx())
 		}
@@ -624,9 +695,33 @@ func verifC23Total(accs []verifC23Acc, fees *big.Int) *big.Int {
 	return s
 }
 
+// verifC23Windows measures how often the generator reaches the two narrow windows in which only the charged failure is
+// a correct outcome (evidence classes only).
+func verifC23Windows(rt *rapid.T, c *kit.Case, f *verifC23Fixture, addrs [][]byte, x verifC23Tx) {
+	g := f.cfg
+	snd := f.read(rt, addrs[x.snd])
+	req := g.moveGas(len(x.data))
+	if x.nonce != snd.nonce || x.gasPrice < g.minGasPrice || x.gasLimit < req || x.gasLimit >= g.maxGasPerBlock || x.value.Cmp(g.supply) > 0 {
+		return
+	}
+	fee := f.econ.ComputeTxFee(verifC23BuildTx(addrs, x))
+	if snd.bal.Cmp(fee) < 0 {
+		return
+	}
+	c.Class("tx-well-formed-fee-covered")
+	move := verifC23Mul(req, x.gasPrice)
+	capFee := verifC23Mul(x.gasLimit, x.gasPrice)
+	if x.snd == x.rcv && snd.bal.Cmp(big.NewInt(0).Add(fee, x.value)) < 0 {
+		c.Class("window:self-transfer-fee-covered-value-not")
+	}
+	if f.notifier.epoch < g.penalizeEpoch && x.gasLimit > req && snd.bal.Cmp(move) >= 0 && snd.bal.Cmp(capFee) < 0 {
+		c.Class("window:penalize-flag-off-spare-gas-balance-between-move-fee-and-gasLimit*gasPrice")
+	}
+}
+
 func TestVerifC23_MoveBalanceSequences(t *testing.T) {
 	kit.Run(t, "C23", kit.Budget{Quick: 1500, Thorough: 30000},
-		"generated economics (gas price/limit/per-byte, modifier, both fee flags in all combinations via enable epochs 0/2/5 and a confirmed epoch 0..6 that may advance), 3-5 user accounts (some never created, balances around the fee), 1-25 transfers with sender/receiver drawn (incl. equal, incl. non-existing), nonce = account nonce / -1 / +1 / +5, value around balance-fee boundaries and around the supply, gas price min-1/min/3*min/huge, gas limit required-1/required/2*required/block limit/huge, empty data or a short memo; occasional Commit; caller protocol of the tx pre-processor (snapshot, revert unless nil/ErrFailedTransaction). Oracle from balances, nonces and the fee collector before/after; sum of balances + collected fees constant. Non-trivial = a sequence with a success, an insufficient-funds failure and a nonce rejection; distinct by the whole sequence",
+		"generated economics (gas price/limit/per-byte, modifier, both fee flags in all combinations via enable epochs 0/2/5 and a confirmed epoch 0..6 that may advance), 3-5 user accounts (some never created, balances around the fee), 1-25 transfers with sender/receiver drawn (incl. equal, incl. non-existing), nonce = account nonce / -1 / +1 / +5, value around balance-fee boundaries and around the supply, gas price min-1/min/3*min/huge, gas limit required-1/required/2*required/block limit/huge, empty data or a short memo; for ~30 % of the transactions the sender balance is put on a decision boundary computed from the drawn transaction (move fee / fee in force / gasLimit*gasPrice, +-value, one below, inside [fee, fee+value) and [move fee, gasLimit*gasPrice)); occasional Commit; caller protocol of the tx pre-processor (snapshot, revert unless nil/ErrFailedTransaction). Oracle from balances, nonces and the fee collector before/after; sum of balances + collected fees constant; a refusal without charge needs a reason (wrong nonce, gas/value out of bounds, fee not covered). Non-trivial = a sequence with a success, an insufficient-funds failure and a nonce rejection; distinct by the whole sequence",
 		func(rt *rapid.T, c *kit.Case) {
 			g := verifC23GenCfg(rt)
 			f := verifC23NewFixture(rt, g)
@@ -666,6 +761,15 @@ func TestVerifC23_MoveBalanceSequences(t *testing.T) {
 				}
 				cur := f.readAll(rt, addrs)
 				x := verifC23GenTx(rt, g, cur)
+				if rapid.IntRange(0, 9).Draw(rt, "fund") >= 6 {
+					// per-case boundary balance computed from the drawn transaction (any account can hold any balance)
+					if d, target := verifC23Fund(rt, f, addrs, x); d != nil {
+						total0.Add(total0, d)
+						fmt.Fprintf(&hist, " balance[%d]:=%s;", x.snd, target)
+						c.Class("funded-at-boundary")
+					}
+				}
+				verifC23Windows(rt, c, f, addrs, x)
 				kind, err := verifC23Step(rt, c, f, addrs, nil, x, hist.String())
 				seen[kind] = true
 				switch kind {
@@ -727,21 +831,31 @@ func TestVerifC23_Regress(t *testing.T) {
 		type step struct {
 			x    verifC23Tx
 			want int
+			fund int64   // > 0: the sender is put on this balance first
+			by   *[3]int // expected outcome per configuration, when it depends on the fee flags
 		}
 		// accounts: 0 has exactly fee+5, 1 has fee+4, 2 is rich, 3 does not exist
 		steps := []step{
-			{verifC23Tx{snd: 0, rcv: 1, nonce: 1, value: big.NewInt(5), gasPrice: 1000, gasLimit: 10}, verifC23Rejected},                            // higher nonce
-			{verifC23Tx{snd: 0, rcv: 1, nonce: 0, value: big.NewInt(5), gasPrice: 1000, gasLimit: 10}, verifC23Success},                             // exact funds
-			{verifC23Tx{snd: 0, rcv: 1, nonce: 0, value: big.NewInt(0), gasPrice: 1000, gasLimit: 10}, verifC23Rejected},                            // replay: lower nonce
-			{verifC23Tx{snd: 1, rcv: 3, nonce: 0, value: big.NewInt(10), gasPrice: 1000, gasLimit: 10}, verifC23Failed},                             // has fee+9, needs fee+10
-			{verifC23Tx{snd: 2, rcv: 2, nonce: 4, value: big.NewInt(7), gasPrice: 3000, gasLimit: 20}, verifC23Success},                             // self transfer, more gas than needed
-			{verifC23Tx{snd: 2, rcv: 3, nonce: 5, value: big.NewInt(1), gasPrice: 1000, gasLimit: 14, data: "memo"}, verifC23Success},               // creates the receiver, data costs gas
-			{verifC23Tx{snd: 2, rcv: 0, nonce: 6, value: big.NewInt(1), gasPrice: 999, gasLimit: 10}, verifC23Rejected},                             // gas price below minimum
-			{verifC23Tx{snd: 2, rcv: 0, nonce: 6, value: big.NewInt(1), gasPrice: 1000, gasLimit: 9}, verifC23Rejected},                             // gas limit below required
-			{verifC23Tx{snd: 2, rcv: 0, nonce: 6, value: big.NewInt(1), gasPrice: 1000, gasLimit: 100000}, verifC23Rejected},                        // gas limit = block limit
-			{verifC23Tx{snd: 2, rcv: 0, nonce: 6, value: big.NewInt(0).Add(supply, big.NewInt(1)), gasPrice: 1000, gasLimit: 10}, verifC23Rejected}, // value above supply
-			{verifC23Tx{snd: 3, rcv: 0, nonce: 0, value: big.NewInt(12), gasPrice: 1000, gasLimit: 10}, verifC23Rejected},                           // account 3 holds 11: cannot pay the fee
-			{verifC23Tx{snd: 2, rcv: 0, nonce: 6, value: big.NewInt(0), gasPrice: 1000, gasLimit: 10}, verifC23Success},                             // zero value
+			{x: verifC23Tx{snd: 0, rcv: 1, nonce: 1, value: big.NewInt(5), gasPrice: 1000, gasLimit: 10}, want: verifC23Rejected},                            // higher nonce
+			{x: verifC23Tx{snd: 0, rcv: 1, nonce: 0, value: big.NewInt(5), gasPrice: 1000, gasLimit: 10}, want: verifC23Success},                             // exact funds
+			{x: verifC23Tx{snd: 0, rcv: 1, nonce: 0, value: big.NewInt(0), gasPrice: 1000, gasLimit: 10}, want: verifC23Rejected},                            // replay: lower nonce
+			{x: verifC23Tx{snd: 1, rcv: 3, nonce: 0, value: big.NewInt(10), gasPrice: 1000, gasLimit: 10}, want: verifC23Failed},                             // has fee+9, needs fee+10
+			{x: verifC23Tx{snd: 2, rcv: 2, nonce: 4, value: big.NewInt(7), gasPrice: 3000, gasLimit: 20}, want: verifC23Success},                             // self transfer, more gas than needed
+			{x: verifC23Tx{snd: 2, rcv: 3, nonce: 5, value: big.NewInt(1), gasPrice: 1000, gasLimit: 14, data: "memo"}, want: verifC23Success},               // creates the receiver, data costs gas
+			{x: verifC23Tx{snd: 2, rcv: 0, nonce: 6, value: big.NewInt(1), gasPrice: 999, gasLimit: 10}, want: verifC23Rejected},                             // gas price below minimum
+			{x: verifC23Tx{snd: 2, rcv: 0, nonce: 6, value: big.NewInt(1), gasPrice: 1000, gasLimit: 9}, want: verifC23Rejected},                             // gas limit below required
+			{x: verifC23Tx{snd: 2, rcv: 0, nonce: 6, value: big.NewInt(1), gasPrice: 1000, gasLimit: 100000}, want: verifC23Rejected},                        // gas limit = block limit
+			{x: verifC23Tx{snd: 2, rcv: 0, nonce: 6, value: big.NewInt(0).Add(supply, big.NewInt(1)), gasPrice: 1000, gasLimit: 10}, want: verifC23Rejected}, // value above supply
+			{x: verifC23Tx{snd: 3, rcv: 0, nonce: 0, value: big.NewInt(12), gasPrice: 1000, gasLimit: 10}, want: verifC23Rejected},                           // account 3 holds 11: cannot pay the fee
+			{x: verifC23Tx{snd: 2, rcv: 0, nonce: 6, value: big.NewInt(0), gasPrice: 1000, gasLimit: 10}, want: verifC23Success},                             // zero value
+			// self transfer whose value is not covered: the charged failure, as for any other receiver (seeded C23-c)
+			{x: verifC23Tx{snd: 2, rcv: 2, nonce: 7, value: big.NewInt(2000000000), gasPrice: 1000, gasLimit: 10}, want: verifC23Failed},
+			{x: verifC23Tx{snd: 1, rcv: 1, nonce: 1, value: big.NewInt(1), gasPrice: 1000, gasLimit: 10}, want: verifC23Failed, fund: 10000}, // exactly the fee
+			// spare gas, balance between the move fee (10000) and gasLimit*gasPrice (20000): with both fee flags off the fee
+			// is the move fee, it is covered, so this is the charged failure; with a flag on the fee (15000 / 20000) is not
+			// covered and the transaction is refused (seeded C23-d)
+			{x: verifC23Tx{snd: 0, rcv: 1, nonce: 1, value: big.NewInt(1), gasPrice: 1000, gasLimit: 20}, fund: 12000,
+				by: &[3]int{verifC23Rejected, verifC23Failed, verifC23Rejected}},
 		}
 		f := verifC23NewFixture(t, g)
 		addrs := [][]byte{verifC23Addr(0, 9), verifC23Addr(1, 9), verifC23Addr(2, 9), verifC23Addr(3, 9)}
@@ -753,6 +867,12 @@ func TestVerifC23_Regress(t *testing.T) {
 		}
 		total0 := verifC23Total(f.readAll(t, addrs), f.fees.GetAccumulatedFees())
 		for si, s := range steps {
+			if s.fund > 0 {
+				total0.Add(total0, f.setBalance(t, addrs[s.x.snd], big.NewInt(s.fund)))
+			}
+			if s.by != nil {
+				s.want = s.by[ci]
+			}
 			kind, err := verifC23Step(t, rep, f, addrs, nil, s.x, fmt.Sprintf("regress config %d step %d", ci, si))
 			if kind != s.want {
 				t.Fatalf("fixture: regress config %d step %d %v: outcome %d (err %v), the table expects %d", ci, si, s.x, kind, err, s.want)
